@@ -24,12 +24,23 @@ int main(void)
       pr_long("nonterminating", 0); pr_long("ticks", tick_total);
       pr_matrix("scores", m->scores); pr_matrix("loadings", m->loadings); pr_matrix("dmodx", m->dmodx);
       pr_dvector("varexp", m->varexp); pr_dvector("avg", m->colaverage); pr_dvector("scale", m->colscaling);
-      initMatrix(&ps); PCAScorePredictor(x, m, npc, ps); pr_matrix("pred_same", ps); DelMatrix(&ps);
-      initMatrix(&pn); PCAScorePredictor(xnew, m, npc, pn); pr_matrix("pred_new", pn); DelMatrix(&pn);
-      initMatrix(&bt); PCAIndVarPredictor(m->scores, m->loadings, m->colaverage, m->colscaling, npc, bt); pr_matrix("back", bt); DelMatrix(&bt);
-      { matrix *rm; size_t kh = (m->scores->col + 1) / 2;   /* residuals after all and after half of the components */
-        initMatrix(&rm); GetResidualMatrix(x, m, m->scores->col, rm); pr_matrix("resid_all", rm); DelMatrix(&rm);
+      reuse_mask = 0;
+      initMatrix(&ps); PCAScorePredictor(x, m, npc, ps); pr_matrix("pred_same", ps);
+      initMatrix(&pn); PCAScorePredictor(xnew, m, npc, pn); pr_matrix("pred_new", pn);
+      { /* the same predictions into objects that already hold a result / junk of the right shape / another shape */
+        matrix *c = dup_matrix(ps); PCAScorePredictor(x, m, npc, ps); RB(0, same_m(ps, c));
+        junk_m(ps); PCAScorePredictor(x, m, npc, ps); RB(0, same_m(ps, c));
+        PCAScorePredictor(x, m, npc, pn); RB(1, same_m(pn, c)); DelMatrix(&c); }
+      DelMatrix(&ps); DelMatrix(&pn);
+      initMatrix(&bt); PCAIndVarPredictor(m->scores, m->loadings, m->colaverage, m->colscaling, npc, bt); pr_matrix("back", bt);
+      { matrix *c = dup_matrix(bt); PCAIndVarPredictor(m->scores, m->loadings, m->colaverage, m->colscaling, npc, bt); RB(2, same_m(bt, c));
+        junk_m(bt); PCAIndVarPredictor(m->scores, m->loadings, m->colaverage, m->colscaling, npc, bt); RB(2, same_m(bt, c)); DelMatrix(&c); }
+      DelMatrix(&bt);
+      { matrix *rm, *c; size_t kh = (m->scores->col + 1) / 2;   /* residuals after all and after half of the components */
+        initMatrix(&rm); GetResidualMatrix(x, m, m->scores->col, rm); pr_matrix("resid_all", rm); c = dup_matrix(rm);
+        junk_m(rm); GetResidualMatrix(x, m, m->scores->col, rm); RB(3, same_m(rm, c)); DelMatrix(&c); DelMatrix(&rm);
         initMatrix(&rm); GetResidualMatrix(x, m, kh, rm); pr_matrix("resid_half", rm); DelMatrix(&rm); }
+      pr_long("reuse_bad", reuse_mask);
       verif_nproc_override = 0;
       DelPCAModel(&m); DelMatrix(&x); DelMatrix(&xnew);
     }
